@@ -228,3 +228,50 @@ Proof.
     apply andb_true_iff in Hc. destruct Hc as [Hc _]. apply andb_true_iff in Hc. destruct Hc as [_ Hh].
     apply negb_true_iff in Hh. cbn [decode_name]. rewrite Hh, (IH Hs). reflexivity.
 Qed.
+
+(** ** escaped names (escape_pdf_name): EVERY name of bytes < 256 is scanned whole and decodes to itself *)
+Definition esc_byte_ok (c : N) : bool :=
+  if iso_plain c then negb (is_delim c) && negb (c =? 35)
+  else negb (is_delim 35) && negb (is_delim (hexdig (c / 16))) && negb (is_delim (hexdig (c mod 16)))
+       && match hex2q (hexdig (c / 16)) (hexdig (c mod 16)) with Some v => v =? c | None => false end.
+Lemma esc_byte_sweep : forall c, c < 256 -> esc_byte_ok c = true.
+Proof. apply allb_spec. vm_compute. reflexivity. Qed.
+
+Lemma scan_name_esc : forall n rest, bytes_ok n = true -> delim_follows rest ->
+  scan_name (esc_name n ++ rest) = (esc_name n, rest).
+Proof.
+  induction n as [|c n IH]; intros rest H D.
+  - cbn [esc_name app]. destruct rest as [|d r]; [reflexivity|]. cbn in D. cbn [scan_name]. rewrite D. reflexivity.
+  - cbn [bytes_ok forallb] in H. apply andb_true_iff in H. destruct H as [Hb Hs].
+    unfold byte_ok in Hb. apply N.ltb_lt in Hb.
+    pose proof (esc_byte_sweep c Hb) as K. unfold esc_byte_ok in K.
+    cbn [esc_name]. destruct (iso_plain c).
+    + apply andb_true_iff in K. destruct K as [K1 K2]. apply negb_true_iff in K1, K2.
+      cbn [app scan_name]. rewrite K1, K2, (IH rest Hs D). reflexivity.
+    + cbn [app scan_name]. change (is_delim 35) with false. change (35 =? 35) with true. cbv iota.
+      rewrite (IH rest Hs D). reflexivity.
+Qed.
+
+Lemma decode_name_esc : forall n, bytes_ok n = true -> decode_name (esc_name n) = Some n.
+Proof.
+  induction n as [|c n IH]; intro H.
+  - reflexivity.
+  - cbn [bytes_ok forallb] in H. apply andb_true_iff in H. destruct H as [Hb Hs].
+    unfold byte_ok in Hb. apply N.ltb_lt in Hb.
+    pose proof (esc_byte_sweep c Hb) as K. unfold esc_byte_ok in K.
+    cbn [esc_name]. destruct (iso_plain c).
+    + apply andb_true_iff in K. destruct K as [_ K2]. apply negb_true_iff in K2.
+      cbn [decode_name]. rewrite K2, (IH Hs). reflexivity.
+    + apply andb_true_iff in K. destruct K as [_ K].
+      destruct (hex2q (hexdig (c / 16)) (hexdig (c mod 16))) as [v|] eqn:E; [|discriminate].
+      apply N.eqb_eq in K. subst v.
+      cbn [decode_name]. change (35 =? 35) with true. cbv iota. rewrite E, (IH Hs). reflexivity.
+Qed.
+
+(** the escaper is the identity on names made of kept characters (no output change for them) *)
+Lemma esc_name_plain : forall n, forallb iso_plain n = true -> esc_name n = n.
+Proof.
+  induction n as [|c n IH]; intro H; [reflexivity|].
+  cbn [forallb] in H. apply andb_true_iff in H. destruct H as [Hc Hn].
+  cbn [esc_name]. rewrite Hc, (IH Hn). reflexivity.
+Qed.
